@@ -3,6 +3,7 @@
 use std::{
     cell::UnsafeCell,
     ops::{Index, IndexMut},
+    sync::atomic::{AtomicUsize, Ordering},
 };
 
 use crate::{to_right, Prefix};
@@ -34,7 +35,7 @@ impl<P, T> Node<P, T> {
 /// the inner data. If, however, you own an immutable reference, then you must guarantee that there
 /// is no other reference to the Table that potentially accesses the same node mutably. This interior
 /// mutability is only ever provided in `get_mut`.
-pub(crate) struct Table<P, T>(UnsafeCell<Vec<Node<P, T>>>);
+pub(crate) struct Table<P, T>(UnsafeCell<Vec<Node<P, T>>>, AtomicUsize);
 
 // Safety:
 // - Sending a PrefixMap over thread boundary is fine. No-one besides us can have the raw pointer,
@@ -78,7 +79,10 @@ impl<P, T> IndexMut<usize> for Table<P, T> {
 
 impl<P: Clone, T: Clone> Clone for Table<P, T> {
     fn clone(&self) -> Self {
-        Self(UnsafeCell::new(self.as_ref().clone()))
+        Self(
+            UnsafeCell::new(self.as_ref().clone()),
+            AtomicUsize::new(self.count()),
+        )
     }
 }
 
@@ -87,12 +91,15 @@ where
     P: Prefix,
 {
     fn default() -> Self {
-        Self(UnsafeCell::new(vec![Node {
-            prefix: P::zero(),
-            value: None,
-            left: None,
-            right: None,
-        }]))
+        Self(
+            UnsafeCell::new(vec![Node {
+                prefix: P::zero(),
+                value: None,
+                left: None,
+                right: None,
+            }]),
+            AtomicUsize::new(0),
+        )
     }
 }
 
@@ -129,6 +136,31 @@ pub(crate) enum DirectionForInsert<P> {
 impl<P, T> Table<P, T> {
     pub(crate) fn into_inner(self) -> Vec<Node<P, T>> {
         self.0.into_inner()
+    }
+
+    /// The number of nodes that store a value.
+    pub(crate) fn count(&self) -> usize {
+        self.1.load(Ordering::Relaxed)
+    }
+
+    /// Mutable access to the number of nodes that store a value.
+    pub(crate) fn count_mut(&mut self) -> &mut usize {
+        self.1.get_mut()
+    }
+
+    /// Record that a value was added through a shared reference (from a `TrieViewMut`).
+    pub(crate) fn inc_count(&self) {
+        self.1.fetch_add(1, Ordering::Relaxed);
+    }
+
+    /// Record that a value was removed through a shared reference (from a `TrieViewMut`).
+    pub(crate) fn dec_count(&self) {
+        self.1.fetch_sub(1, Ordering::Relaxed);
+    }
+
+    /// Mutable access to a node together with the number of nodes that store a value.
+    pub(crate) fn node_and_count_mut(&mut self, idx: usize) -> (&mut Node<P, T>, &mut usize) {
+        (&mut self.0.get_mut()[idx], self.1.get_mut())
     }
 
     /// *Safety*: You must ensure for the lifetime of 'a, that you will never construct a second
